@@ -142,7 +142,7 @@ def install(ctx):
 
 def run(ctx):
     thorough = ctx.tier == "thorough"
-    n = (40000 if thorough else 2000) // ctx.nshards
+    n = (400000 if thorough else 2000) // ctx.nshards
     for j in range(n):
         r = ctx.rng("c05", j)
         case = gridcases.gen_case(r)
@@ -156,7 +156,7 @@ def run(ctx):
                         "rates_first_row": case["rates"][0][:4], "total_rate": float(numpy.sum(case["rates"])),
                         "zero_bins": int((numpy.array(case["rates"]) == 0).sum()), "layout": layout, "scale": scale, "tests": TESTS})
     # low-rate forecasts: the L-test's Poisson draw is often 0 (empty simulated catalogs between non-empty ones)
-    for j in range((2000 if thorough else 80) // ctx.nshards):
+    for j in range((20000 if thorough else 80) // ctx.nshards):
         r = ctx.rng("c05low", j)
         case = gridcases.gen_case(r, max_cells=12, max_mag=3, max_events=6, zero_frac=0.0, events_in_zero=False)
         rates = numpy.array(case["rates"])
@@ -164,7 +164,7 @@ def run(ctx):
         ex_case(ctx, case, "L", num_sim=int(r.choice([8, 20])), seed=j)
         ex_case(ctx, case, "S", num_sim=3, seed=j)
     # tiny-rate bins holding events (rates down to 1e-12 are in the domain)
-    for j in range((4000 if thorough else 200) // ctx.nshards):
+    for j in range((40000 if thorough else 200) // ctx.nshards):
         r = ctx.rng("c05tiny", j)
         case = gridcases.gen_case(r, max_cells=12, max_mag=3, max_events=10, zero_frac=0.0, events_in_zero=False)
         rates = numpy.array(case["rates"])
